@@ -573,6 +573,8 @@ def run_c10(ctx):
     nb = 4 if quick else 16
     for i in range(nb):
         scs.append({'sid': 'crc-basis-%d' % i, 'kind': 'crc', 'part': 'basis', 'seed': ctx.seed + i, 'n': 40 if quick else 400})
+    for i in range(2 if quick else 16):
+        scs.append({'sid': 'crc-pieces-%d' % i, 'kind': 'crc', 'part': 'pieces', 'seed': ctx.seed * 17 + i, 'n': 60 if quick else 600})
     # all messages of length 0..2: 1 + 256 + 65536 = 65793 indices
     hi = 65793 if not quick else 257 + 4096
     step = 2048
